@@ -29,3 +29,101 @@ pub fn verif_bits_store_le_u8(v: &mut BitVec, a: usize, b: usize, x: u8)
     ensures final(v)@.len() == old(v)@.len(),
         forall|i: int| 0 <= i < old(v)@.len() ==> #[trigger] final(v)@[i] == (if a <= i < b { bit_of(x, i - a) } else { old(v)@[i] }),
 { unimplemented!() }
+
+// ---- BitSlice views of byte slices (encoder side) ----
+//# assumes: bitvec's view_bits::<Lsb0>() on [u8] exposes bit k of byte i at position 8i+k; BitSlice::{iter, len, chunks(n), load::<u8>} and prefix slicing behave as documented; view_bits_mut + set(i, v) sets exactly that bit of the underlying bytes
+pub struct Lsb0;
+#[verifier::external_body]
+pub struct BitSlice { _x: u8 }
+impl View for BitSlice { type V = Seq<bool>; uninterp spec fn view(&self) -> Seq<bool>; }
+pub open spec fn bytes_bits(s: Seq<u8>) -> Seq<bool> { Seq::new(8 * s.len(), |j: int| bit_of(s[j / 8], j % 8)) }
+/// little-endian value of a short bit string
+pub open spec fn load_spec(s: Seq<bool>) -> int decreases s.len() {
+    if s.len() == 0 { 0 } else { (if s[0] { 1int } else { 0int }) + 2 * load_spec(s.drop_first()) }
+}
+pub open spec fn chunk_seq(s: Seq<bool>, n: int) -> Seq<Seq<bool>> {
+    Seq::new(((s.len() + n - 1) / n) as nat, |c: int| s.subrange(n * c, if n * c + n <= s.len() { n * c + n } else { s.len() as int }))
+}
+pub trait VerifBitView {
+    spec fn verif_bytes(&self) -> Seq<u8>;
+    fn view_bits<O>(&self) -> (r: &BitSlice)
+        ensures r@ == bytes_bits(self.verif_bytes());
+}
+impl VerifBitView for [u8] {
+    open spec fn verif_bytes(&self) -> Seq<u8> { self@ }
+    #[verifier::external_body]
+    fn view_bits<O>(&self) -> (r: &BitSlice) { unimplemented!() }
+}
+#[verifier::external_body]
+pub struct VBitIter<'a> { _x: &'a u8 }
+pub uninterp spec fn vbititer_remaining<'a>(b: &VBitIter<'a>) -> Seq<&'a bool>;
+impl<'a> Iterator for VBitIter<'a> {
+    type Item = &'a bool;
+    #[verifier::external_body]
+    fn next(&mut self) -> (r: Option<&'a bool>) { unimplemented!() }
+}
+impl<'a> IteratorSpecImpl for VBitIter<'a> {
+    open spec fn obeys_prophetic_iter_laws(&self) -> bool { true }
+    #[verifier::prophetic]
+    open spec fn remaining(&self) -> Seq<&'a bool> { vbititer_remaining(self) }
+    #[verifier::prophetic]
+    open spec fn will_return_none(&self) -> bool { true }
+    open spec fn decrease(&self) -> Option<nat> { Some(vbititer_remaining(self).len()) }
+    open spec fn peek(&self, i: int) -> Option<&'a bool> {
+        if 0 <= i < vbititer_remaining(self).len() { Some(vbititer_remaining(self)[i]) } else { None }
+    }
+}
+#[verifier::external_body]
+pub struct VBitChunks<'a> { _x: &'a u8 }
+pub uninterp spec fn vbitchunks_remaining<'a>(b: &VBitChunks<'a>) -> Seq<&'a BitSlice>;
+impl<'a> Iterator for VBitChunks<'a> {
+    type Item = &'a BitSlice;
+    #[verifier::external_body]
+    fn next(&mut self) -> (r: Option<&'a BitSlice>) { unimplemented!() }
+}
+impl<'a> IteratorSpecImpl for VBitChunks<'a> {
+    open spec fn obeys_prophetic_iter_laws(&self) -> bool { true }
+    #[verifier::prophetic]
+    open spec fn remaining(&self) -> Seq<&'a BitSlice> { vbitchunks_remaining(self) }
+    #[verifier::prophetic]
+    open spec fn will_return_none(&self) -> bool { true }
+    open spec fn decrease(&self) -> Option<nat> { Some(vbitchunks_remaining(self).len()) }
+    open spec fn peek(&self, i: int) -> Option<&'a BitSlice> {
+        if 0 <= i < vbitchunks_remaining(self).len() { Some(vbitchunks_remaining(self)[i]) } else { None }
+    }
+}
+impl BitSlice {
+    #[verifier::external_body]
+    pub fn len(&self) -> (r: usize) ensures r == self@.len() { unimplemented!() }
+    #[verifier::external_body]
+    pub fn iter<'a>(&'a self) -> (r: VBitIter<'a>)
+        ensures vbititer_remaining(&r).len() == self@.len(), forall|i: int| 0 <= i < self@.len() ==> *(#[trigger] vbititer_remaining(&r)[i]) == self@[i]
+    { unimplemented!() }
+    #[verifier::external_body]
+    pub fn verif_prefix(&self, n: usize) -> (r: &BitSlice)
+        requires n <= self@.len()
+        ensures r@ == self@.subrange(0, n as int)
+    { unimplemented!() }
+    #[verifier::external_body]
+    pub fn chunks<'a>(&'a self, n: usize) -> (r: VBitChunks<'a>)
+        requires n > 0
+        ensures vbitchunks_remaining(&r).len() == chunk_seq(self@, n as int).len(),
+            forall|c: int| 0 <= c < vbitchunks_remaining(&r).len() ==> (#[trigger] vbitchunks_remaining(&r)[c])@ == chunk_seq(self@, n as int)[c]
+    { unimplemented!() }
+    #[verifier::external_body]
+    pub fn load<T>(&self) -> (r: u8)
+        requires 1 <= self@.len() <= 8
+        ensures r as int == load_spec(self@)
+    { unimplemented!() }
+}
+#[verifier::external_body]
+pub fn verif_bytes_set_bit(v: &mut Vec<u8>, i: usize, value: bool)
+    requires i < 8 * old(v)@.len()
+    ensures final(v)@.len() == old(v)@.len(), bytes_bits(final(v)@) == bytes_bits(old(v)@).update(i as int, value)
+{ unimplemented!() }
+//# assumes: String::from_utf8 of ASCII bytes succeeds and yields the same characters
+#[verifier::external_body]
+pub fn verif_string_from_utf8_ascii(v: Vec<u8>) -> (r: String)
+    requires forall|i: int| 0 <= i < v@.len() ==> #[trigger] v@[i] < 128
+    ensures r@ == chars(v@)
+{ String::from_utf8(v).expect("invalid utf8") }
